@@ -1127,7 +1127,8 @@ MANIFEST = {
             "and messages per event; GOODBYE at most once and answered iff not initiated locally; "
             "ProtocolError and unchanged state for illegal messages), every pending request failed at "
             "session end (at the latest at transport loss when the user's onLeave skipped the base "
-            "class), API calls after the end raise TransportLost or return an already failed result.",
+            "class), API calls after the end raise TransportLost or return an already failed result."
+            " ABORT counts among the handshake messages that are illegal once the session is established.",
     "note": "Trusted: ref/wamp_session.py Lifecycle, harness/wamp_l1.py (scripted transport keeps "
             "isOpen() true until the harness delivers onClose, as the real transports do). After a "
             "finished GOODBYE exchange or ABORT the router stays silent.",
